@@ -62,7 +62,7 @@ class C06(Property):
         kids = vlib.known_ids(self.id)
         return F7 in kids and F11 in kids
 
-    def execute(self, cases, ctx):
+    def _execute(self, cases, ctx):
         rc, out, res = vlib.go_run(self.bin, cases, tag="c06", timeout=900)
         if rc != 0 or len(res) != len(cases):
             raise ExecError("c06 executor rc=%s: %s" % (rc, out[-2000:]))
@@ -347,29 +347,62 @@ class C06(Property):
         return "mkCase %s %s %s %s" % (cfg, rows, ops, oo)
 
     # ---------------------------------------------------------------- known findings
-    def known(self, case, obs):
+    def _may(self, case):
         ops = case["ops"]
         may7 = any(o[0] == "cfault" and o[2] for o in ops) and any(o[0] in ("exec", "del") for o in ops)
         may11 = any(o[0] == "setex" and o[4] <= 0 for o in ops)
+        return may7, may11
+
+    def _kkey(self, case, obs):
+        return vlib.canon_hash([case["ops"], case["rows"], case["expiry"], case["nfexpiry"], case["nodes"], obs])
+
+    def _classify_batch(self, pairs):
+        """Check.classify for many histories at once: which exemption (F7 / F11 / both) makes the
+        property hold on the observed history."""
+        cache = self.__dict__.setdefault("_kcache", {})
+        todo = [(self._kkey(c, o), c, o) for c, o in pairs if any(self._may(c))]
+        todo = [t for t in todo if t[0] not in cache]
+        chunks = [todo[i:i + 60] for i in range(0, len(todo), 60)]
+
+        def work(chunk):
+            term = "map classify %s" % clist(["(%s)" % self.coq_case(c, o) for _, c, o in chunk])
+            out = vlib.coq_eval_term("%s_k%d" % (self.id, id(chunk) % 100000), self.check_module, term)
+            rs = re.findall(r"\(\s*(true|false)\s*,\s*(true|false)\s*,\s*(true|false)\s*\)", out)
+            return rs if len(rs) == len(chunk) else None
+
+        import concurrent.futures
+        with concurrent.futures.ThreadPoolExecutor(max_workers=8) as ex:
+            outs = list(ex.map(work, chunks))
+        for chunk, rs in zip(chunks, outs):
+            for i, (key, c, o) in enumerate(chunk):
+                cache[key] = tuple(x == "true" for x in rs[i]) if rs else None
+
+    def execute(self, cases, ctx):
+        res = self._execute(cases, ctx)
+        self._last = list(zip(cases, res))
+        return res
+
+    def known(self, case, obs):
+        may7, may11 = self._may(case)
         if not (may7 or may11):
             return None
-        key = vlib.canon_hash([case["ops"], case["rows"], case["expiry"], case["nfexpiry"], obs])
         cache = self.__dict__.setdefault("_kcache", {})
+        key = self._kkey(case, obs)
         if key not in cache:
-            out = vlib.coq_eval_term(self.id, self.check_module, "classify (%s)" % self.coq_case(case, obs))
-            m = re.search(r"=\s*\((true|false),\s*(true|false),\s*(true|false)\)", out)
-            res = None
-            if m:
-                a, b, c = (x == "true" for x in m.groups())
-                if a and may7:
-                    res = F7
-                elif b and may11:
-                    res = F11
-                elif c and may7 and may11:
-                    kids = vlib.known_ids(self.id)
-                    res = F7 if (F7 in kids and F11 in kids) else None
-            cache[key] = res
-        return cache[key]
+            batch = [(c, o) for c, o in self.__dict__.get("_last", []) if len(o["obs"]) == len(c["ops"])]
+            self._classify_batch(batch + [(case, obs)])
+        r = cache.get(key)
+        if not r:
+            return None
+        a, b, c = r
+        if a and may7:
+            return F7
+        if b and may11:
+            return F11
+        if c and may7 and may11:
+            kids = vlib.known_ids(self.id)
+            return F7 if (F7 in kids and F11 in kids) else None
+        return None
 
     # ---------------------------------------------------------------- load suppression monitor
     def extra(self, ctx):
